@@ -8,8 +8,8 @@ TECH = 'Verus contracts on functions extracted verbatim from /repo (deductive, Z
 
 CHECKS = {
     'C01': dict(
-        text='Proof of per-function obligations (partial): W -- the significant words (tokens evaluation can see, and comments) of a node are carried by the document in the same order in every layout, nothing added, dropped, duplicated or reordered -- for the flow engine, 14 flow-based converters and their wrappers, the leaf converters, the dispatchers convert_expr/convert_expr_impl/convert_pattern, func_call.rs (callee + parenthesized part + trailing content blocks), convert_math and the markup engine (line representation == children in order; one piece per entry); the mode/parenthesis guard G (exact shape of optional_paren; only self-delimited constructs go unprotected; bodies evaluated in continued-code mode); the paren-removal gate; the table reflow gate; exact spacing contract of the flow engine; exact Context/Mode helpers (also Kani, complete); exact newline recognition.',
-        note="Partial: W is ASSUMED (clause `words_preserved assumed`, listed in evidence) for the list-, chain- and table-based converters and for the functions outside the verifier's reach (closures capturing &mut); the parser and the renderer are outside the contracts, so tree equivalence itself is never concluded. Known findings C01-F2..F5 are printed, not proved. Trusted: shims, parser facts PF0-PF13 (validated on the corpus in the thorough tier).",
+        text='Proof of per-function obligations (partial): W -- the significant words (tokens evaluation can see, and comments) of a node are carried by the document in the same order in every layout, nothing added, dropped, duplicated or reordered -- for the flow engine, 14 flow-based converters and their wrappers, the leaf converters, the dispatchers convert_expr/convert_expr_impl/convert_pattern, func_call.rs (callee + parenthesized part + trailing content blocks), the list engine (items + free comments + pending `#` carry exactly the words of the children consumed; print_doc in all three fold styles emits delimiters + those words) and convert_array/destructuring/params/parenthesized_impl built on it, convert_binary, convert_math and the markup engine (line representation == children in order; one piece per entry); the mode/parenthesis guard G (exact shape of optional_paren; only self-delimited constructs go unprotected; bodies evaluated in continued-code mode); the paren-removal gate; the table reflow gate; exact spacing contract of the flow engine; exact Context/Mode helpers (also Kani, complete); exact newline recognition.',
+        note="Partial: W is ASSUMED (clause `words_preserved assumed`, listed in evidence) for dict, equation, the chain- and table-based converters, import, raw, field access, content block and for the functions outside the verifier's reach (closures capturing &mut); context passing: unwrapped bodies keep the context they were given (exact postcondition over the uninterpreted expr_doc_s); the parser and the renderer are outside the contracts, so tree equivalence itself is never concluded. Known findings C01-F2..F5 are printed, not proved. Trusted: shims, parser facts PF0-PF13 (validated on the corpus in the thorough tier).",
         ref='DESIGN.md 5/C01', technique=TECH),
     'C04': dict(
         text='Proof of per-function obligations (partial): line-comment transformer safety T -- over every layout the renderer can choose, no text ever follows an unterminated `//` comment and every converter result ends outside a comment -- for the flow, list, chain and plain layout engines, the markup and math engines and every converter built on them; the optional-parenthesis guard G (exact shape of optional_paren; unprotected only for self-delimited constructs; body evaluated in continued-code mode, delimiters matching the mode).',
@@ -17,7 +17,7 @@ CHECKS = {
         ref='DESIGN.md 5/C04', technique=TECH),
     'C06': dict(
         text='Proof of per-function obligations (partial): W over words AND comments (so a comment keeps its order and its neighbouring words) for the functions listed under C01; T (no comment absorbs code, no code inside a comment) for all four layout engines and the markup/math engines; line comments re-emitted as Text(token text), block comments as aligned plain lines cut only by ASCII leading blanks; list attach/detach never reorders or loses a comment; chain items never drop a comment; the attribute pass flags every node with a comment child; has_linebreak/count_linebreaks recognise every Typst newline.',
-        note='Partial: W is assumed for list/chain/table-based converters (listed in evidence). Known findings C06-F2 printed. Trusted: parser facts, shims.',
+        note='Partial: W is proved for the list engine and array/destructuring/params/parenthesized, assumed for dict/equation/chain/table-based converters (listed in evidence). Known findings C06-F2 printed. Trusted: parser facts, shims.',
         ref='DESIGN.md 5/C06', technique=TECH),
     'C12': dict(
         text='Proof of per-function obligations (partial): N -- every Nest a function under contract builds has amount config.tab_spaces, and '
